@@ -334,6 +334,16 @@ func c14case(c *runner.Ctx, i int) {
 			}
 			c.Guard("Query.Exec", func() { err = sess.Query(c14stmt(j), fmt.Sprintf("tag%d", j), 99).Exec() })
 			if err != nil {
+				dropped := false
+				for _, n := range nodes {
+					n.mu.Lock()
+					dropped = dropped || n.hasDrop
+					n.mu.Unlock()
+				}
+				if dropped && strings.Contains(err.Error(), "context canceled") {
+					// the request was in flight on a connection that a scripted drop was still tearing down
+					continue
+				}
 				if left == 0 && !strings.Contains(err.Error(), "no connections") && !strings.Contains(err.Error(), "no hosts") && !strings.Contains(err.Error(), "closed") && !strings.Contains(err.Error(), "EOF") {
 					st.problem("C14:failure-remembered", fmt.Sprintf("statement %d still fails with %q although every scripted PREPARE failure has been used up", j, clipS(err.Error())))
 				}
